@@ -12,3 +12,4 @@ import PG.Props.C12
 #print axioms PG.C12_class_slice
 #print axioms PG.C12_method_slice
 #print axioms PG.C12_frame_slices
+#print axioms PG.C12_unaligned
